@@ -69,9 +69,9 @@ def nat_expr(n):
 
 
 def verdict_of(funcs, name, depth=0):
-    """The condition under which the function returns EXIT_SUCCESS (0), as Lean Bool text. Follows the straight-line code of the
-    function: boolean locals assigned from the reporter's totals, `return cond ? EXIT_SUCCESS : EXIT_FAILURE`, `return local`,
-    and a return through a helper of the same file (the helper is read the same way)."""
+    """The condition under which the function returns EXIT_SUCCESS (0), as Lean Bool text. Follows the code of the function path by
+    path: boolean locals assigned from the reporter's totals, `return cond ? EXIT_SUCCESS : EXIT_FAILURE`, `return local`, `return`
+    of a constant under an `if`, and a return through a helper of the same file (the helper is read the same way)."""
     if depth > 3 or name not in funcs: raise Unsupported(f"cannot follow {name}")
     env = {}
 
@@ -81,13 +81,30 @@ def verdict_of(funcs, name, depth=0):
             return env[n["referencedDecl"]["name"]]
         return bool_expr_env(n, env)
 
-    result = []
+    def returned(e):
+        """success (the value returned is 0) as Lean Bool text"""
+        e = strip(e)
+        k = e.get("kind")
+        if k == "IntegerLiteral": return "true" if int(e["value"]) == 0 else "false"
+        if k == "ConditionalOperator":
+            cond, a, b = e["inner"]
+            c = value(cond)
+            return f"(({c} && {returned(a)}) || ((!{c}) && {returned(b)}))"
+        if k == "CallExpr":
+            callee = strip(e["inner"][0]).get("referencedDecl", {}).get("name")
+            return verdict_of(funcs, callee, depth + 1)
+        if k == "DeclRefExpr" and e.get("referencedDecl", {}).get("name") in env:
+            return f"(!{env[e['referencedDecl']['name']]})"      # a status variable: 0 is success
+        raise Unsupported("return expression of " + name)
 
-    def stmts(n):
-        for c in n.get("inner", []) or []:
+    def block(nodes):
+        """success condition of the first return reached on the way through these statements, None if none is reached"""
+        for i, c in enumerate(nodes):
             k = c.get("kind")
-            if k == "CompoundStmt": stmts(c)
-            elif k == "DeclStmt":
+            if k == "CompoundStmt":
+                r = block((c.get("inner") or []) + nodes[i + 1:])
+                return r
+            if k == "DeclStmt":
                 for v in c.get("inner", []):
                     if v.get("kind") == "VarDecl" and v.get("inner"):
                         try: env[v["name"]] = value(v["inner"][-1])
@@ -97,26 +114,27 @@ def verdict_of(funcs, name, depth=0):
                 if lhs.get("kind") == "DeclRefExpr":
                     try: env[lhs["referencedDecl"]["name"]] = value(c["inner"][1])
                     except Unsupported: env.pop(lhs["referencedDecl"]["name"], None)
+            elif k == "IfStmt":
+                inner = c["inner"]
+                has_return = [False]
+                walk(c, lambda m: has_return.__setitem__(0, has_return[0] or m.get("kind") == "ReturnStmt"))
+                if not has_return[0]: continue          # (validation, set-up: no verdict in there)
+                cnd = value(inner[0])
+                saved = dict(env)
+                t = block([inner[1]] + nodes[i + 1:])
+                env.clear(); env.update(saved)
+                e = block(([inner[2]] if len(inner) > 2 else []) + nodes[i + 1:])
+                env.clear(); env.update(saved)
+                if t is None or e is None: raise Unsupported("a path without a return in " + name)
+                return f"(({cnd} && {t}) || ((!{cnd}) && {e}))"
             elif k == "ReturnStmt" and c.get("inner"):
-                e = strip(c["inner"][0])
-                if e.get("kind") == "ConditionalOperator":
-                    cond, a, b = e["inner"]
-                    a, b = strip(a), strip(b)
-                    if a.get("kind") == "IntegerLiteral" and b.get("kind") == "IntegerLiteral":
-                        av, bv = int(a["value"]), int(b["value"])
-                        if av == 0 and bv != 0: result.append(value(cond)); continue
-                        if av != 0 and bv == 0: result.append(f"(!{value(cond)})"); continue
-                    raise Unsupported("return expression of " + name)
-                if e.get("kind") == "CallExpr":
-                    callee = strip(e["inner"][0]).get("referencedDecl", {}).get("name")
-                    result.append(verdict_of(funcs, callee, depth + 1)); continue
-                if e.get("kind") == "DeclRefExpr" and e.get("referencedDecl", {}).get("name") in env:
-                    result.append(f"(!{env[e['referencedDecl']['name']]})"); continue      # a status variable: 0 is success
-                raise Unsupported("return expression of " + name)
+                return returned(c["inner"][0])
+        return None
+
     body = [c for c in funcs[name]["inner"] if c.get("kind") == "CompoundStmt"][0]
-    stmts(body)
-    if len(result) != 1: raise Unsupported(f"{len(result)} return statements read in {name}")
-    return result[0]
+    r = block([body])
+    if r is None: raise Unsupported(f"no return statement read in {name}")
+    return r
 
 
 def bool_expr_env(n, env):
